@@ -241,7 +241,8 @@ def stage_toy(ctx):
                 raise MachineryError("vacuity: no %s case on %s" % (need, cname))
         if not any(k.startswith("class:sign|%s|" % cname) and k.endswith("retry=True") for k in counts):
             raise MachineryError("vacuity: RetryIncrementNonce never taken on " + cname)
-        if not any(k.startswith("class:sign|%s|recid=3" % cname) for k in counts):
+        # (the p83 curve has no point with x in 79..82: recovery ids 2 and 3 do not exist there)
+        if cname != "p83" and not any(k.startswith("class:sign|%s|recid=3" % cname) for k in counts):
             raise MachineryError("vacuity: no signature with recovery id 3 on " + cname)
     # binding self-test: a corrupted expectation must be noticed
     if "plain" in first:
